@@ -890,6 +890,12 @@ class PytatoKeyBuilder(LoopyKeyBuilder):
         self.rec(key_hash, key.shape)
         self.rec(key_hash, key.data.tobytes())
 
+    def update_for_numpy_scalar(self, key_hash: Any, key: Any) -> None:
+        # bytes alone do not identify a scalar either: np.float32(2) and
+        # np.int32(1073741824) have the same bytes
+        self.rec(key_hash, key.dtype.str)
+        super().update_for_numpy_scalar(key_hash, key)
+
     def update_for_TaggableCLArray(self, key_hash: Any, key: Any) -> None:
         from arraycontext.impl.pyopencl.taggable_cl_array import (  # pylint: disable=import-error
             TaggableCLArray,
